@@ -263,6 +263,11 @@ func (e *Engine) callFunc(fr *frame, ins ssa.Instruction, fn *ssa.Function, args
 			}
 		}
 		return Sc{e.sc.define("printed", SBool, t), SBool}, reach
+	case "vcCallFailed":
+		if e.failedTerm == "" {
+			return Sc{"false", SBool}, reach
+		}
+		return Sc{e.failedTerm, SBool}, reach
 	case "vcLoggedError":
 		if e.calleeLogFlag != "" {
 			return Sc{e.calleeLogFlag, SBool}, reach
@@ -498,6 +503,16 @@ func (e *Engine) callByContract(fr *frame, ins ssa.Instruction, fn *ssa.Function
 		resList = tv
 	} else if res != nil {
 		resList = []Val{res}
+	}
+	if c.Options["failure-is-event"] && !e.pure && len(e.sc.binders) == 0 && len(resList) > 0 {
+		// ghost state "a call of such a function has returned an error": read by vcCallFailed()
+		if iv, ok := resList[len(resList)-1].(IfaceVal); ok {
+			cur := e.failedTerm
+			if cur == "" {
+				cur = "false"
+			}
+			e.failedTerm = e.sc.define("failed", SBool, or(cur, and(reach, not(eq(iv.Tag, bvLit(0, 16))))))
+		}
 	}
 	pre := heap // callee post-state == caller heap after havoc
 	// vcLoggedError() inside the callee's postconditions speaks about the callee's diagnostics:
@@ -1117,7 +1132,7 @@ func (e *Engine) copyOp(fr *frame, cc *ssa.CallCommon, args []Val, heap Heap) Va
 			e.dirty[c.key] = true
 			return
 		}
-		if dl, ok := e.smallConst(d.Len); ok && dl <= 48 {
+		if dl, ok := e.smallConst(d.Len); ok && dl <= 48 && (dl <= 8 || isBVLit(e.sc.resolve(d.Off))) {
 			// a short destination: at most dl elements change, each conditionally
 			t := old
 			for j := 0; j < dl; j++ {
